@@ -321,8 +321,8 @@ theorem tagAt_mem (i : Nat) (hi : i < 3) : tagAt i ∈ Gen.requiredTags := by
   rw [List.getD_eq_getElem?_getD, List.getElem?_eq_getElem (by omega)]
   simp
 
-theorem parseSections_ni (secs : Sections) (want : Option (List (Nat × Nat))) : NI (parseSections secs want) := by
-  unfold parseSections
+theorem parseShared_ni (secs : Sections) : NI (parseShared secs) := by
+  unfold parseShared
   split
   · exact NI_ve
   · rename_i hreq
@@ -338,8 +338,13 @@ theorem parseSections_ni (secs : Sections) (want : Option (List (Nat × Nat))) :
     apply NI_bind _ _ (parseSync_ni _ _); intro sy _
     apply NI_bind _ _ (lookup_ni _ _ h2); intro evLines _
     apply NI_bind _ _ (parseEvents_ni _ _ _); intro ev _
-    apply NI_bind _ _ (routeTracks_ni _ _ _ _); intro tr _
     exact NI_ok _
+
+theorem parseSections_ni (secs : Sections) (want : Option (List (Nat × Nat))) : NI (parseSections secs want) := by
+  unfold parseSections
+  apply NI_bind _ _ (parseShared_ni _); intro sh _
+  apply NI_bind _ _ (routeTracks_ni _ _ _ _); intro tr _
+  exact NI_ok _
 
 theorem scanGo_ni (hdr : Str → Option Str) (lines : List Str) (cur : Option Str) (body : Option (List Str))
     (seen : List Str) (d : Sections) : NI (scanGo hdr lines cur body seen d) := by
